@@ -87,6 +87,8 @@ partial def valOfJson (j : Json) : Except String PyVal := do
   | "list" => pure (.seq (← getNat j "id") .list (← vals "xs"))
   | "tuple" => pure (.seq (← getNat j "id") .tuple (← vals "xs"))
   | "code" => pure (.seq (← getNat j "id") .code (← vals "xs"))
+  | "partial" => pure (.seq (← getNat j "id") .partialFn (← vals "xs"))
+  | "method" => pure (.seq (← getNat j "id") .boundMethod (← vals "xs"))
   | "set" => pure (.set (← getNat j "id") false (← vals "xs"))
   | "frozenset" => pure (.set (← getNat j "id") true (← vals "xs"))
   | "dict" => pure (.dict (← getNat j "id") (← items "items"))
